@@ -49,6 +49,14 @@ def gen(rng, tier):
         if t == "sha1" or tier == "thorough":
             P = contents(rng, 9); S = contents(rng, 16)
             cases.append(Case("pbkdf2tail %s %s %s 1 65538 4" % (t, hexs(P), hexs(S)), "tail %s blocks>65535" % t, True, spec="spec.pbkdf2tail %s %s %s 1 65538 4" % (t, hexs(P), hexs(S))))
+        # output lengths above 2^24 bytes that are not multiples of hLen (a block count computed in single precision is one short)
+        if t == "sha256" or tier == "thorough":
+            P = contents(rng, 9); S = contents(rng, 16); dk = 2 ** 24 + (5 if t == "sha1" else 1)
+            cases.append(Case("pbkdf2end %s %s %s 1 %d 20" % (t, hexs(P), hexs(S), dk), "end %s dk>2^24" % t, True, spec="spec.pbkdf2end %s %s %s 1 %d 20" % (t, hexs(P), hexs(S), dk)))
+        # block indices from 2^24 on (the most significant byte of INT(i)): 2^24 + 1 SHA-1 blocks, ~335 MB, thorough tier only
+        if t == "sha1" and tier == "thorough":
+            P = contents(rng, 9); S = contents(rng, 16)
+            cases.append(Case("pbkdf2tail %s %s %s 1 %d 3" % (t, hexs(P), hexs(S), 2 ** 24 + 1), "tail %s blocks>=2^24" % t, True, spec="spec.pbkdf2tail %s %s %s 1 %d 3" % (t, hexs(P), hexs(S), 2 ** 24 + 1)))
         # larger iteration counts (thorough): RFC 6070 style
         # (65537 iterations: a 16-bit loop counter would wrap; the extracted model needs ~8 ms per iteration, so thorough tier, SHA-1 only)
         for c in ([50] if tier == "quick" else ([1000, 4096, 65537] if t == "sha1" else [1000, 4096])):
@@ -81,5 +89,5 @@ def key(case, impl, model):
 
 def spec_cost(case):
     p = case.line.split()
-    if p[0] == "pbkdf2tail": return 10
+    if p[0] in ("pbkdf2tail", "pbkdf2end"): return 10
     return int(p[-2]) * (int(p[-1]) // 20 + 1)            # iterations x blocks
